@@ -11,3 +11,44 @@ CLAIMS["C17"] = dict(category="exploration",
   technique="reference-union monitor comparing memory view, store content and model after every call of the real ReplicateMeteImpl; crash-in-update and reload; concurrent reporters under the race detector",
   text="Held on every generated history of this run (reports in any order with duplicates, removals, reloads, crashes inside an update, concurrent reporters) over 1-3 tasks x 1-4 messages of both kinds; the check found and now guards the repaired merge/removal defect (fix commit 621c2cc).",
   note="in-memory api.ReplicateStore with etcd-store semantics (JSON per key, prefix scan) is trusted; store error returns are outside the property's quantifier and not injected")
+_reader_note = "fake msgdispatcher / TargetAPI / MetaOp and the rig's consumers are the trusted base (DESIGN 2.2); hooks H1/H2 (tag verif) give logical quiescence and the computed-order log; results hold for the executions observed"
+CLAIMS["C01"] = dict(category="exploration",
+  technique="offline set/sequence checker over feed and emission logs of the real channel manager (unique message ids, payload clones), race detector on, seeded presend delays",
+  text="Every generated catalog/script/registration interleaving of this run reached logical quiescence and the emitted stream per source shard equalled the fed stream (no loss, no duplicate, no foreign or filtered-type message, source order with delete-first ties, payload equal modulo the rewritten fields, labels and per-stream pack order). Sampled executions under the race detector; right level because the property quantifies over inputs and schedules.",
+  note=_reader_note)
+CLAIMS["C02"] = dict(category="exploration",
+  technique="direct comparison of every emitted message / pack against the generated downstream catalog (ids, vchannel pairing as a bijection, output channel, positions) over the same executions as C01",
+  text="Held on all observed executions including differently placed downstream shards (forwarded packs), collections created by event, and partition ids learned lazily.",
+  note=_reader_note + "; the pairing of source and downstream vchannels is required to be a consistent bijection onto the collection's downstream vchannels (the statement does not prescribe which one)")
+CLAIMS["C03"] = dict(category="exploration",
+  technique="per-channel clock predicate evaluated in computed order (hook inside the channel lock) and in dequeue order; yield-point scheduler realising compute/enqueue inversions; skewed stream clocks",
+  text="Clock logic held in computed order on all observed executions after the repaired tick defect (fix aac0fad); in dequeue order the only violations observed are the compute-to-enqueue reordering, reported as KNOWN-FINDING (not repaired). Any violation not explained by that reordering exits 1.",
+  note=_reader_note + "; resume clause checked here only against seek positions, real restart resume belongs to the system rig")
+CLAIMS["C04"] = dict(category="exploration",
+  technique="event-position checker over imposed shard delivery orders (all S! for S<=4 cycled), AddPartition racing stream registration, mid-run stops and dropped-while-down restarts",
+  text="Held on all observed executions after two repairs found by this check (partition barrier sized before all shards registered: ffb6c22; nil pack crash: 6537f4c): one drop request per object, right names, never before the drop was handed to every shard, nothing read-and-emitted afterwards, no drop from a stop.",
+  note=_reader_note + "; a missing drop event is judged after logical quiescence plus a 30 s idle watchdog (the only wall-clock element; 'too early' and 'twice' are purely logical)")
+_writer_note = "recording api.DataHandler with a downstream catalog model and an in-memory ReplicateStore are the trusted base; Milvus' own UnmarshalDispatcher is the decoder; retry back-offs are whole seconds so error paths are sampled more thinly"
+CLAIMS["C07"] = dict(category="exploration",
+  technique="decode-and-compare monitor: every captured ReplicateMessageParam is decoded with Milvus' decoder and compared (proto.Equal) with a clone of the pack taken before the call; concurrent channels under the race detector",
+  text="Held for every generated pack of this run (all supported message types x replicate id on/off x mapping shapes x 1-8 concurrent channels x injected downstream failures x empty packs).", note=_writer_note)
+CLAIMS["C08"] = dict(category="exploration",
+  technique="exhaustive order-type sweep of the readiness decision (hook H6 and public behaviour, 156 cells) plus generated create/drop/re-create histories with rewinds and restarts against a recording downstream catalog",
+  text="Part A (finite) enumerated completely and held; part B histories: the violations observed on this tree are five recorded known findings (drop events / database ops not gated by the tables, probe order) and one repaired defect (AlterIndex re-check, c9b9716); anything else exits 1.", note=_writer_note + "; cells the statement leaves open (create time = drop time, replay of an object's own create/drop) are counted as unspecified, not judged")
+CLAIMS["C09"] = dict(category="exploration",
+  technique="reference-mapping monitor: every op kind x source database x mapping shape (648 cells), every captured param's name fields and routing database compared with the mapping applied to the source names; map-order repetitions",
+  text="All cells visited; five routing/mapping defects found by this check were repaired (f65599f, 7fcecc4, mapping precedence, partition events, database probe); the unmapped grant entity of OperatePrivilege is a recorded known finding.", note=_writer_note)
+CLAIMS["C20"] = dict(category="exploration",
+  technique="deep comparison of every captured DDL/RBAC param with the source message or event (22 kinds x generated field fillings) and zero-call check for malformed packs",
+  text="Held for every generated filling of every kind and every malformed pack shape of this run.", note=_writer_note)
+CLAIMS["C12"] = dict(category="fault_enumeration",
+  technique="full-backend dump diff against the operation's footprint on embedded etcd and on a MySQL-semantics database/sql engine (fakesql), reads against a reference map, a fault injected at every store/driver call of DeleteTask",
+  text="Every operation of every generated sequence changed/returned only records inside its footprint and DeleteTask was all-or-nothing at every injected fault point, on both backends, after four repairs found by this check (MySQL delete scoping, LIKE escaping, replicate prefix, etcd replicate root). Nested root paths and task ids containing '/' on etcd are recorded known findings.",
+  note="fakesql implements exactly the statements the store issues with MySQL's documented LIKE / ON DUPLICATE KEY / transaction semantics and case-sensitive '=' (self-tested at start-up); embedded etcd v3.5.5 is the real thing")
+_cat_note = "the catalog writer is the rig's rendering of rootcoord's etcd layout as parsed by etcd_op.go and used in the repo's tests; embedded etcd is real; quiescence is logical (watch pool idle + sentinel object reported)"
+CLAIMS["C13"] = dict(category="exploration",
+  technique="catalog writes injected at each of the 9 subscribe/watch/list/start-watch step boundaries of the real EtcdOp + CollectionReader; recording ChannelManager compared with the expected-started set",
+  text="Held at every boundary x write kind of this run after two repairs found by this check (lookup without break: dfe9867; default-partition name match: 52443db).", note=_cat_note)
+CLAIMS["C15"] = dict(category="exploration",
+  technique="reference table computed by set logic from the generated catalog compared with the real GetAllDroppedObj() on embedded etcd, with a fake target and with a nil target",
+  text="Held on all generated catalogs after the stale-database repair (af7f444); two recorded known findings remain (database horizon vs live namesake, non-injective name keys).", note=_cat_note)
